@@ -196,7 +196,37 @@ func r10_2(c *Ctx) {
 		"Header.Del(Last-Event-ID) on the empty edge", "the Last-Event-ID header is not deleted when the last event ID is empty: a stale ID keeps being sent")
 	// after the body reset succeeded
 	if bodyReset == nil {
-		c.bad(name+":after-body-reset", P.pos(fn.Pos()), "resetRequest does not reset the request body")
+		// merged form: the body is re-obtained in place (R10.4 decides its discipline); the header must not
+		// be touched on a path on which that failed (GetBody nil for a real body, or GetBody's error)
+		var get *ssa.Call
+		eachInstrDeep(fn, func(in ssa.Instruction) {
+			if call, ok := in.(*ssa.Call); ok && call.Call.StaticCallee() == nil && !call.Call.IsInvoke() {
+				if _, ok := isFieldLoad(call.Call.Value, "http.Request", "GetBody"); ok {
+					get = call
+				}
+			}
+		})
+		if get == nil {
+			c.bad(name+":after-body-reset", P.pos(fn.Pos()), "resetRequest does not reset the request body")
+		} else {
+			getErr := func(v ssa.Value) bool {
+				e, ok := v.(*ssa.Extract)
+				return ok && e.Index == 1 && e.Tuple == ssa.Value(get)
+			}
+			leak := false
+			for _, ifi := range ifsIn(fn) {
+				if sN, ok := nilEdge(ifi, getErr); ok {
+					for _, h := range []*ssa.Call{set[0], del[0]} {
+						if reachesAvoiding(atEdge(ifi.Block(), 1-sN), h, nil, nil) {
+							leak = true
+						}
+					}
+				}
+			}
+			c.check(!leak && (instrDominates(get, set[0]) || !reachesAvoiding(afterInstr(set[0]), get, nil, nil)), name+":after-body-reset", P.ipos(get),
+				"header update only after the body was re-obtained (in place)", "the header is updated although re-obtaining the body failed")
+			c.ok(name+":body-reset-error", P.ipos(get), "the in-place body reset's error paths are decided by R10.4")
+		}
 	} else {
 		isBR := func(v ssa.Value) bool { return v == ssa.Value(bodyReset) }
 		c.check(guardedByNil(fn, set[0].Block(), isBR, true) && guardedByNil(fn, del[0].Block(), isBR, true), name+":after-body-reset", P.ipos(bodyReset),
@@ -245,24 +275,30 @@ func r10_3(c *Ctx) {
 
 func r10_4(c *Ctx) {
 	P := c.P
-	fn := P.Fn("resetRequestBody")
-	if fn == nil || len(fn.Params) != 1 {
-		c.anchor("resetRequestBody(r)")
+	// anchored on the GetBody call: the function around it re-obtains the body (resetRequestBody, or
+	// resetRequest itself when the helper was merged into it); decided path-wise
+	var get *ssa.Call
+	for _, f := range P.Funcs {
+		if !inSSEPackage(f) || f.Synthetic != "" {
+			continue
+		}
+		eachInstr(f, func(in ssa.Instruction) {
+			if call, ok := in.(*ssa.Call); ok && call.Call.StaticCallee() == nil && !call.Call.IsInvoke() {
+				if _, ok := isFieldLoad(call.Call.Value, "http.Request", "GetBody"); ok {
+					get = call
+				}
+			}
+		})
+	}
+	if get == nil {
+		c.bad("request-body:getbody", "-", "no function of the client calls Request.GetBody(): a consumed body is re-sent on retry")
 		return
 	}
+	fn := get.Parent()
 	name := fnLabel(fn)
-	r := fn.Params[0]
-	var get *ssa.Call
-	eachInstr(fn, func(in ssa.Instruction) {
-		if call, ok := in.(*ssa.Call); ok && call.Call.StaticCallee() == nil && !call.Call.IsInvoke() {
-			if b, ok := isFieldLoad(call.Call.Value, "http.Request", "GetBody"); ok && b == ssa.Value(r) {
-				get = call
-			}
-		}
-	})
-	if get == nil {
-		c.bad(name+":getbody", P.pos(fn.Pos()), "resetRequestBody never calls r.GetBody(): a consumed body is re-sent on retry")
-		return
+	reqBase, _ := isFieldLoad(get.Call.Value, "http.Request", "GetBody")
+	sameReq := func(b ssa.Value) bool {
+		return b == reqBase || sameValue(b, reqBase) || exprShape(b, 0) == exprShape(reqBase, 0)
 	}
 	getErr := func(v ssa.Value) bool {
 		e, ok := v.(*ssa.Extract)
@@ -272,47 +308,145 @@ func r10_4(c *Ctx) {
 		e, ok := v.(*ssa.Extract)
 		return ok && e.Index == 0 && e.Tuple == ssa.Value(get)
 	}
-	// writes to r.Body
-	nW := 0
-	for _, a := range P.fieldAccesses("http.Request", "Body") {
-		if a.Kind != "write" || a.Fn != fn {
-			continue
-		}
-		nW++
-		st := a.Use.(*ssa.Store)
-		c.check(getBody(st.Val) && guardedByNil(fn, st.Block(), getErr, true), name+":body-write", P.ipos(st), "r.Body = GetBody()'s result on its nil-error edge", "r.Body is assigned something other than a fresh GetBody() result (or although GetBody failed)")
-	}
-	if nW == 0 {
-		c.bad(name+":body-write", P.pos(fn.Pos()), "the fresh body is never installed")
-	}
 	isGetBodyFn := func(v ssa.Value) bool {
 		b, ok := isFieldLoad(v, "http.Request", "GetBody")
-		return ok && b == ssa.Value(r)
+		return ok && sameReq(b)
 	}
 	isBody := func(v ssa.Value) bool {
 		b, ok := isFieldLoad(v, "http.Request", "Body")
-		return ok && b == ssa.Value(r)
+		return ok && sameReq(b)
 	}
-	for i, ret := range returnsOf(fn) {
-		rn := name + ":return#" + itoa(i)
-		for _, s := range sources(ret.Results[0]) {
-			switch {
-			case isGlobalLoad(s, "ErrNoGetBody"):
-				c.check(guardedByNil(fn, ret.Block(), isGetBodyFn, true), rn, P.ipos(ret), "ErrNoGetBody when GetBody is nil (and a real body exists)", "ErrNoGetBody returned without GetBody == nil")
-			case getErr(s):
-				c.check(guardedByNil(fn, ret.Block(), getErr, false), rn, P.ipos(ret), "GetBody's own error returned as is", "GetBody's error returned on its nil edge")
-			case isNilConst(s):
-				// either the no-body early exit (Body == nil or == NoBody) or success after installing the body
-				early := guardedByNil(fn, ret.Block(), isBody, true) || guardedByNoBody(fn, ret.Block(), isBody)
-				success := guardedByNil(fn, ret.Block(), getErr, true)
-				c.check(early || success, rn, P.ipos(ret), "nil only for a nil/NoBody body or after a fresh body was installed", "resetRequestBody returns nil although the body was not re-obtained (GetBody nil or failed)")
-			default:
-				c.undecided(rn, P.ipos(ret), "unrecognised return: "+describe(s))
+	isNoBody := func(v ssa.Value) bool {
+		mi, ok := v.(*ssa.MakeInterface)
+		if !ok {
+			return false
+		}
+		a, ok := loadedFrom(mi.X)
+		if !ok {
+			return false
+		}
+		g, ok := a.(*ssa.Global)
+		return ok && g.Name() == "NoBody" && g.Pkg != nil && g.Pkg.Pkg.Path() == "net/http"
+	}
+	c.ok(name+":getbody", P.ipos(get), "the request body is re-obtained through GetBody() here")
+	paths, okP := abstractPaths(fn, 8192, nil)
+	if !okP || len(paths) == 0 {
+		c.undecided(name+":paths", P.pos(fn.Pos()), "too many paths (or a loop) in the function that re-obtains the body")
+		return
+	}
+	why := map[string]string{}
+	nReal := 0
+	for _, p := range paths {
+		var bodyNil, bodyNotNil, isNB, notNB, gbNil, gbNonNil, errNil, errNonNil bool
+		for e := range p.St.Edges {
+			if len(e.From.Instrs) == 0 {
+				continue
+			}
+			ifi, isIf := e.From.Instrs[len(e.From.Instrs)-1].(*ssa.If)
+			if !isIf {
+				continue
+			}
+			if sN, ok := nilEdge(ifi, isBody); ok {
+				if e.Idx == sN {
+					bodyNil = true
+				} else {
+					bodyNotNil = true
+				}
+			}
+			if sN, ok := nilEdge(ifi, isGetBodyFn); ok {
+				if e.Idx == sN {
+					gbNil = true
+				} else {
+					gbNonNil = true
+				}
+			}
+			if sN, ok := nilEdge(ifi, getErr); ok {
+				if e.Idx == sN {
+					errNil = true
+				} else {
+					errNonNil = true
+				}
+			}
+			cnd := decodeIf(ifi)
+			if cnd.Y != nil && (cnd.Op == token.EQL || cnd.Op == token.NEQ) && ((isBody(cnd.X) && isNoBody(cnd.Y)) || (isBody(cnd.Y) && isNoBody(cnd.X))) {
+				if (e.Idx == cnd.succWhen(true)) == (cnd.Op == token.EQL) {
+					isNB = true
+				} else {
+					notNB = true
+				}
 			}
 		}
+		bodyReal := bodyNotNil && notNB
+		called, stored := false, false
+		for _, in := range p.Instrs {
+			if in == ssa.Instruction(get) {
+				called = true
+			}
+			if st, ok := in.(*ssa.Store); ok {
+				if b, ok := isFieldSel(st.Addr, "http.Request", "Body"); ok && sameReq(b) {
+					if getBody(st.Val) && called && errNil {
+						stored = true
+					} else {
+						why["body-write"] = "the request body is assigned something other than a fresh GetBody() result on its nil-error edge"
+					}
+				}
+			}
+		}
+		if called && !gbNonNil {
+			why["getbody-nil-guard"] = "GetBody may be called while nil"
+		}
+		if !bodyReal {
+			if called && !(bodyNil || isNB) {
+				// called without having looked at Body: harmless for this rule, R10.4 only constrains real bodies
+			}
+			continue
+		}
+		nReal++
+		var rets []ssa.Value
+		for _, sv := range sources(p.St.resolve(p.Ret.Results[len(p.Ret.Results)-1])) {
+			rets = append(rets, sv)
+		}
+		all := func(pred func(ssa.Value) bool) bool {
+			for _, r := range rets {
+				if !pred(r) {
+					return false
+				}
+			}
+			return len(rets) > 0
+		}
+		switch {
+		case gbNil:
+			if !all(func(v ssa.Value) bool { return isGlobalLoad(v, "ErrNoGetBody") }) {
+				why["no-getbody"] = "a request with a real body but no GetBody does not end in ErrNoGetBody: the consumed body is re-sent"
+			}
+		case errNonNil:
+			if !all(getErr) {
+				why["getbody-error"] = "GetBody's error is not returned as is"
+			}
+		default:
+			if all(isNilConst) && !stored {
+				why["success"] = "nil is returned for a request with a real body although no fresh body was installed"
+			}
+			if !all(isNilConst) && !all(getErr) && stored {
+				// an error after a successful reset belongs to the caller's other duties
+			}
+		}
+		if all(func(v ssa.Value) bool { return isGlobalLoad(v, "ErrNoGetBody") }) && !gbNil {
+			why["no-getbody"] = "ErrNoGetBody returned without GetBody == nil"
+		}
 	}
-	// GetBody() is only called when non-nil
-	c.check(guardedByNil(fn, get.Block(), isGetBodyFn, false), name+":getbody-nil-guard", P.ipos(get), "GetBody is called only when non-nil", "GetBody may be called while nil")
+	for _, k := range []string{"body-write", "getbody-nil-guard", "no-getbody", "getbody-error", "success"} {
+		c.check(why[k] == "", name+":"+k, P.ipos(get), map[string]string{
+			"body-write":        "Body = GetBody()'s result, only on its nil-error edge",
+			"getbody-nil-guard": "GetBody is called only when non-nil",
+			"no-getbody":        "ErrNoGetBody exactly when a real body exists and GetBody is nil",
+			"getbody-error":     "GetBody's own error is returned as is",
+			"success":           "nil only for a nil/NoBody body or after a fresh body was installed",
+		}[k], why[k])
+	}
+	if nReal == 0 {
+		c.bad(name+":real-body", P.pos(fn.Pos()), "no path distinguishes a real request body (non-nil, not http.NoBody)")
+	}
 }
 
 // guardedByNoBody: block dominated by the true edge of `body == http.NoBody`, or
